@@ -252,6 +252,52 @@ def run(ctx: Ctx):
                           rmetas[idx], expected="rep_mat / its conjugate transpose (LinAlg/RepStack.v)", observed="matrix differs",
                           oracle="rep_mat_acts")
 
+    # ---- (b'') replicated stacks over operands that CHANGE the rank (vector -> matrix, matrix -> vector) with the
+    #      replicate axis first / in the middle / last (negative and non-negative), forward and adjoint matrices
+    r3cases, r3metas = [], []
+    for t in range(ctx.n(12, 90)):
+        dt = ctx.rng.choice([np.float64, np.complex128])
+        k = ctx.rng.choice([2, 3])
+        in_shape, out_shape = [((4,), (2, 3)), ((2, 3), (4,)), ((2, 2), (3, 2)), ((3,), (2, 2))][t % 4]
+        ri, ro = len(in_shape), len(out_shape)
+        ia = ctx.rng.choice(list(range(-(ri + 1), ri + 1)))
+        oa = ctx.rng.choice([None] + list(range(-(ro + 1), ro + 1)))
+        ia_n = ia % (ri + 1)
+        if oa is None and ia_n > ro:
+            oa = 0         # the default output axis would be outside the output rank (rejected by the constructor)
+        oa_n = ia_n if oa is None else oa % (ro + 1)
+        m, n = int(np.prod(out_shape)), int(np.prod(in_shape))
+        Am = L.rand_dyadic_np(ctx.rng, (m, n), cplx=L.is_complex(dt)).astype(dt)
+        key = {"stack": "R3", "A": repr(Am.tolist()), "operand_in": list(in_shape), "operand_out": list(out_shape), "replicates": k,
+               "input_axis": ia, "output_axis": oa, "dtype": np.dtype(dt).name}
+        try:
+            op = linop.LinearOperator(input_shape=in_shape, output_shape=out_shape, input_dtype=dt, output_dtype=dt,
+                                      eval_fn=lambda x, Am=Am, out_shape=out_shape: (snp.array(Am) @ x.ravel()).reshape(out_shape),
+                                      adj_fn=lambda y, Am=Am, in_shape=in_shape: (snp.array(Am).conj().T @ y.ravel()).reshape(in_shape))
+            S = linop.DiagonalReplicated(op, replicates=k, input_axis=ia, output_axis=oa, map_type="vmap")
+            R = L.dense(S, S.input_shape, S.input_dtype)
+            Radj = L.dense(S.adj, S.output_shape, S.output_dtype)
+        except Exception as ex:
+            ctx.violation("stack:R3", "building / evaluating a valid replicated stack (or its adjoint) fails", key,
+                          observed=f"{type(ex).__name__}: {str(ex)[:200]}", oracle="evaluation")
+            continue
+        bi = int(np.prod(in_shape[ia_n:])) if ia_n < ri else 1
+        bo = int(np.prod(out_shape[oa_n:])) if oa_n < ro else 1
+        if R.shape != (k * m, k * n):
+            ctx.violation("stack:R3", "the replicated stack's size differs from replicates x operand size", key,
+                          expected=[k * m, k * n], observed=list(R.shape), oracle="declared shapes")
+            continue
+        r3cases.append(f"({k}%nat, {m}%nat, {n}%nat, {bo}%nat, {bi}%nat, (@None Q), {L.coq_mat(Am)}, {L.coq_mat(R)}, {L.coq_mat(Radj)})")
+        r3metas.append(key)
+        ctx.count("stack:R3", key)
+    if r3cases:
+        body = ("Definition cases : list (nat * nat * nat * nat * nat * option Q * cmat * cmat * cmat) := " + coq_list(r3cases, ";\n ") + ".\n"
+                "Eval vm_compute in (bad_idx rep3_case_ok cases 0%nat).")
+        for idx in parse_eval_nat_list(coq_eval_shards("C05_rep3", HEADER + "From SV Require Import LinAlg.RepStack LinAlg.RepStack3.\n", [body])[0]):
+            ctx.violation("stack:R3", "the replicated stack (or its adjoint) is not the block construction on its operand",
+                          r3metas[idx], expected="rep_mat3 / its conjugate transpose (LinAlg/RepStack3.v)", observed="matrix differs",
+                          oracle="rep_mat3_acts")
+
     # ---- (c) generic Operator algebra, freeze, Function plumbing (pointwise)
     pcases, pmetas = pointwise_cases(ctx)
     if pcases:
